@@ -380,4 +380,37 @@ theorem readDiffs_eq (d m n : Nat) (bs : Bits) (hd : 0 < d) (h64 : d ≤ 64) :
         rw [hm]
         cases hall : (bs.take d).all id <;> simp
 
+/-! ### character columns -/
+
+theorem padBytes_of_length (b : List UInt8) (k : Nat) (h : b.length = k) : padBytes b k = b := by
+  subst h; simp [padBytes]
+
+theorem strCanon_length (k : Nat) (s : Option (List UInt8)) : (Spec.strCanon k s).length = k := by
+  cases s <;> simp [Spec.strCanon, padBytes_length]
+
+/-- the field the string encoder writes for an entry is its canonical form -/
+theorem fieldBytes_none (k : Nat) :
+    fieldBytes (List.replicate k 0xFF) k = .ok (bytesToBits (Spec.strCanon k none)) := by
+  simp only [fieldBytes, writeBytes, List.nil_append, Spec.strCanon]
+  rw [padBytes_of_length _ _ (by simp)]
+
+theorem fieldBytes_some (k : Nat) (b : List UInt8) :
+    fieldBytes b k = .ok (bytesToBits (Spec.strCanon k (some b))) := by
+  simp only [fieldBytes, writeBytes, List.nil_append, Spec.strCanon]
+
+theorem readBytes_of_length (k : Nat) (b : List UInt8) (suf : Bits) (h : b.length = k) :
+    readBytes k (bytesToBits b ++ suf) = .ok (b, suf) := by
+  subst h; exact readBytes_bytesToBits b suf
+
+theorem readStrings_enc (nd : Nat) (base : List UInt8) (strs : List (List UInt8)) (suf : Bits)
+    (h : ∀ s ∈ strs, s.length = nd) :
+    readStrings nd base strs.length (strs.flatMap bytesToBits ++ suf) =
+      .ok (strs.map (base ++ ·), suf) := by
+  induction strs with
+  | nil => rfl
+  | cons s ss ih =>
+    have ih' := ih (fun t ht => h t (by simp [ht]))
+    simp only [List.length_cons, List.flatMap_cons, List.append_assoc, readStrings,
+      readBytes_of_length nd s _ (h s (by simp)), ih', List.map_cons]
+
 end Bufr
